@@ -78,17 +78,23 @@ def snap_tracker(tr):
 
 
 def oracle_recovery(tr, t):
-    """What the event's own recovery callable returns at this step, per ledger."""
+    """What the event's *declared* recovery callable gives at this step for each book: the callable
+    the user passed (or the built-in the name stands for) evaluated on the initial damage of the
+    book, independently of how the tracker wires it."""
     ev = tr.event
     e = t - (ev.occurrence + ev.duration)
     out = {"e": int(e)}
     try:
-        if hasattr(tr, "_recovery_function_indus") and tr._indus_dmg_0 is not None:
-            out["d"] = np.array(tr._recovery_function_indus(e), dtype=float)
-        if hasattr(tr, "_recovery_function_house") and tr._house_dmg_0 is not None:
-            out["h"] = np.array(tr._recovery_function_house(e), dtype=float)
-        if hasattr(tr, "_recovery_function_arb_delta") and tr._prod_delta_from_arb_0 is not None:
-            out["a"] = np.array(tr._recovery_function_arb_delta(e), dtype=float)
+        f = getattr(ev, "recovery_function", None)
+        tau = getattr(ev, "recovery_tau", None)
+        if f is None:
+            return out
+        if tr._indus_dmg_0 is not None and _kind(ev) == "recovery":
+            out["d"] = np.array(f(e, init_impact_stock=tr._indus_dmg_0.copy(), recovery_tau=tau), dtype=float)
+        if tr._house_dmg_0 is not None and _kind(ev) == "recovery":
+            out["h"] = np.array(f(e, init_impact_stock=tr._house_dmg_0.copy(), recovery_tau=tau), dtype=float)
+        if tr._prod_delta_from_arb_0 is not None and _kind(ev) == "arbitrary":
+            out["a"] = np.array(f(e, init_impact_stock=tr._prod_delta_from_arb_0.copy(), recovery_tau=tau), dtype=float)
     except Exception as ex:  # noqa: BLE001
         out["error"] = repr(ex)
     return out
@@ -279,6 +285,24 @@ def snap_records(sim):
     return out
 
 
+PUBLIC = {"production_realised": "production_realised", "production_capacity": "production_capacity", "final_demand": "final_demand",
+          "intermediate_demand": "intermediate_demand", "rebuild_demand": "rebuild_demand", "overproduction": "overproduction",
+          "final_demand_unmet": "final_demand_unmet", "rebuild_prod": "rebuild_prod", "inputs_stocks": "inputs_stocks",
+          "limiting_inputs": "limiting_inputs", "productive_capital_to_recover": "productive_capital_to_recover"}
+
+
+def observe(sim):
+    """The record DataFrames as the public properties return them (None when a property raises)."""
+    out = {}
+    for rec, prop in PUBLIC.items():
+        try:
+            df = getattr(sim, prop)
+            out[rec] = None if df is None else np.array(df.to_numpy(), copy=True)
+        except Exception:  # noqa: BLE001
+            out[rec] = None
+    return out
+
+
 def exc_info(e):
     root = e
     while root.__cause__ is not None:
@@ -287,7 +311,8 @@ def exc_info(e):
             "root_msg": str(root)[:300]}
 
 
-def run(scn, mode="step", tap=True, events_mode="add", max_steps=None, outdir=None, keep_sim=False):
+def run(scn, mode="step", tap=True, events_mode="add", max_steps=None, outdir=None, keep_sim=False, loop_kwargs=None,
+        observe_at=None):
     """Build and run one scenario.  mode = "step" (manual next_step loop) or "loop"."""
     res = {"scenario": scn, "error": None, "steps": [], "init": None, "stage": "build",
            "crashed": False, "n_steps": 0}
@@ -333,7 +358,7 @@ def run(scn, mode="step", tap=True, events_mode="add", max_steps=None, outdir=No
         dt = model.n_temporal_units_by_step
         try:
             if mode == "loop":
-                sim.loop()
+                sim.loop(**(loop_kwargs or {}))
             else:
                 k = 0
                 stepped_crash = False
@@ -352,6 +377,9 @@ def run(scn, mode="step", tap=True, events_mode="add", max_steps=None, outdir=No
                         reg["post"] = snap_trackers(sim)
                     r = sim.next_step()       # driven exactly as a user would: nothing else is touched
                     k += 1
+                    if observe_at and k in observe_at:
+                        # a user looking at the results while the simulation is running (public properties only)
+                        res.setdefault("observed", {})[k] = observe(sim)
                     if r == 1:
                         stepped_crash = True
                         break
@@ -361,6 +389,11 @@ def run(scn, mode="step", tap=True, events_mode="add", max_steps=None, outdir=No
             res["crashed"] = bool(sim.has_crashed) or bool(locals().get("stepped_crash"))
             res["n_steps"] = int(sim.current_temporal_unit)
             res["records"] = snap_records(sim)
+            if observe_at:
+                try:
+                    res.setdefault("observed", {})["end"] = observe(sim)
+                except Exception as ex:  # noqa: BLE001
+                    res["observe_error"] = repr(ex)
             res["final"] = snap_econ(model)
             res["trackers"] = snap_trackers(sim)
         res["stage"] = "done"
